@@ -35,7 +35,7 @@ Record rq := mkRq {
   q_tag : N;
   q_kind : kind;
   q_flush : bool; q_work : bool; q_resp : bool; q_saved : bool;   (* reqStatus bits *)
-  q_flushreq : option nat;     (* as in the code: head of my chain of flushes AND my successor in a chain *)
+  q_flushreq : option nat;     (* first of the flush requests waiting for me *)
   q_prev : option nat;         (* newer request with my tag *)
   q_next : option nat;         (* older request with my tag *)
   q_buf : option N;            (* reply last packed into req.Rc (None: nothing packed) *)
@@ -45,9 +45,10 @@ Record rq := mkRq {
   (* ghost fields (history, not present in the code) *)
   q_packs : list N;            (* every reply ever packed into req.Rc, newest first *)
   q_target : option nat;       (* flush: the request found under oldtag at F1 *)
-  q_after : option nat }.      (* the older request of my tag group I was queued behind on arrival *)
+  q_after : option nat;        (* the older request of my tag group I was queued behind on arrival *)
+  q_flushnext : option nat }.  (* (not ghost) flush request: the next flush waiting for the same request *)
 
-Inductive fpc := R1 | R2 | R3 | R4 | R5 | R6 | RDone.
+Inductive fpc := R1 | R2 | R3 | R4 | R5 | R6 | R7 | RDone.
 
 (* one invocation of (req *SrvReq) Respond() *)
 Record frame := mkFrame {
@@ -55,7 +56,7 @@ Record frame := mkFrame {
   f_pc : fpc;
   f_sflush : bool;             (* status & reqFlush as read at R1 *)
   f_next : option nat;         (* nextreq *)
-  f_todo : list nat;           (* flushreqs still to be answered *)
+  f_cur : option nat;          (* freq: the chained flush request the loop at the end of Respond is at *)
   f_won : bool }.              (* ghost: this invocation found reqResponded clear at R1 *)
 
 Inductive rstat := RvOpen | RvVersion (r : nat) | RvClosed.
@@ -88,40 +89,52 @@ Definition setf (s : st) (i : nat) (f : frame) : st :=
   mkSt (reqs s) (R s) (upd (F s) i f) (outq s) (wire s) (recvr s) (closed s) (posted s).
 Definition addf (s : st) (f : frame) : st :=
   mkSt (reqs s) (R s) (F s ++ [f]) (outq s) (wire s) (recvr s) (closed s) (posted s).
-Definition new_frame (r : nat) : frame := mkFrame r R1 false None [] false.
+Definition new_frame (r : nat) : frame := mkFrame r R1 false None None false.
 
 Definition with_pc (q : rq) (pc : wpc) : rq :=
   mkRq (q_tag q) (q_kind q) (q_flush q) (q_work q) (q_resp q) (q_saved q) (q_flushreq q) (q_prev q) (q_next q)
-       (q_buf q) pc (q_called q) (q_flushop q) (q_packs q) (q_target q) (q_after q).
+       (q_buf q) pc (q_called q) (q_flushop q) (q_packs q) (q_target q) (q_after q) (q_flushnext q).
 Definition with_buf (q : rq) (v : N) : rq :=
   mkRq (q_tag q) (q_kind q) (q_flush q) (q_work q) (q_resp q) (q_saved q) (q_flushreq q) (q_prev q) (q_next q)
-       (Some v) (q_pc q) (q_called q) (q_flushop q) (v :: q_packs q) (q_target q) (q_after q).
+       (Some v) (q_pc q) (q_called q) (q_flushop q) (v :: q_packs q) (q_target q) (q_after q) (q_flushnext q).
 Definition with_flush (q : rq) (b : bool) : rq :=
   mkRq (q_tag q) (q_kind q) b (q_work q) (q_resp q) (q_saved q) (q_flushreq q) (q_prev q) (q_next q)
-       (q_buf q) (q_pc q) (q_called q) (q_flushop q) (q_packs q) (q_target q) (q_after q).
+       (q_buf q) (q_pc q) (q_called q) (q_flushop q) (q_packs q) (q_target q) (q_after q) (q_flushnext q).
 Definition with_status (q : rq) (fl wk rs sv : bool) : rq :=
   mkRq (q_tag q) (q_kind q) fl wk rs sv (q_flushreq q) (q_prev q) (q_next q)
-       (q_buf q) (q_pc q) (q_called q) (q_flushop q) (q_packs q) (q_target q) (q_after q).
+       (q_buf q) (q_pc q) (q_called q) (q_flushop q) (q_packs q) (q_target q) (q_after q) (q_flushnext q).
 Definition with_links (q : rq) (fr pv nx : option nat) : rq :=
   mkRq (q_tag q) (q_kind q) (q_flush q) (q_work q) (q_resp q) (q_saved q) fr pv nx
-       (q_buf q) (q_pc q) (q_called q) (q_flushop q) (q_packs q) (q_target q) (q_after q).
+       (q_buf q) (q_pc q) (q_called q) (q_flushop q) (q_packs q) (q_target q) (q_after q) (q_flushnext q).
 Definition with_called (q : rq) : rq :=
   mkRq (q_tag q) (q_kind q) (q_flush q) (q_work q) (q_resp q) (q_saved q) (q_flushreq q) (q_prev q) (q_next q)
-       (q_buf q) (q_pc q) true (q_flushop q) (q_packs q) (q_target q) (q_after q).
+       (q_buf q) (q_pc q) true (q_flushop q) (q_packs q) (q_target q) (q_after q) (q_flushnext q).
 Definition with_target (q : rq) (t : nat) : rq :=
   mkRq (q_tag q) (q_kind q) (q_flush q) (q_work q) (q_resp q) (q_saved q) (q_flushreq q) (q_prev q) (q_next q)
-       (q_buf q) (q_pc q) (q_called q) (q_flushop q) (q_packs q) (Some t) (q_after q).
+       (q_buf q) (q_pc q) (q_called q) (q_flushop q) (q_packs q) (Some t) (q_after q) (q_flushnext q).
+Definition with_flushnext (q : rq) (n : option nat) : rq :=
+  mkRq (q_tag q) (q_kind q) (q_flush q) (q_work q) (q_resp q) (q_saved q) (q_flushreq q) (q_prev q) (q_next q)
+       (q_buf q) (q_pc q) (q_called q) (q_flushop q) (q_packs q) (q_target q) (q_after q) n.
 Definition with_flushop (q : rq) : rq :=
   mkRq (q_tag q) (q_kind q) (q_flush q) (q_work q) (q_resp q) (q_saved q) (q_flushreq q) (q_prev q) (q_next q)
-       (q_buf q) (q_pc q) (q_called q) true (q_packs q) (q_target q) (q_after q).
+       (q_buf q) (q_pc q) (q_called q) true (q_packs q) (q_target q) (q_after q) (q_flushnext q).
 
-(* follow flushreq links: the chain starting at [o] (fuel bounds cyclic junk) *)
+(* follow flushnext links: the list of flush requests starting at [o] (fuel bounds cyclic junk) *)
 Fixpoint chain (fuel : nat) (rs : list rq) (o : option nat) : list nat :=
   match fuel, o with
   | S f, Some i => match nth_error rs i with
-                   | Some q => i :: chain f rs (q_flushreq q)
+                   | Some q => i :: chain f rs (q_flushnext q)
                    | None => [i] end
   | _, _ => []
+  end.
+
+(* the last element of the list starting at i *)
+Fixpoint chain_last (fuel : nat) (rs : list rq) (i : nat) : nat :=
+  match fuel with
+  | O => i
+  | S f => match nth_error rs i with
+           | Some q => match q_flushnext q with Some j => chain_last f rs j | None => i end
+           | None => i end
   end.
 
 (* version(): for every tag except NOTAG, every request of the tag group gets reqFlush *)
@@ -172,7 +185,7 @@ Definition step (c : cfg) (s : st) (l : label) : option st :=
       let id := length (R s) in
       let newest := alookup (reqs s) tag in
       let pc := match newest with None => WSpawned | Some _ => WWait end in
-      let q := mkRq tag k false false false false None None newest None pc false false [] None newest in
+      let q := mkRq tag k false false false false None None newest None pc false false [] None newest None in
       let rs := R s ++ [q] in
       let rs := match newest with
                 | Some o => match nth_error rs o with
@@ -225,8 +238,8 @@ Definition step (c : cfg) (s : st) (l : label) : option st :=
         | Some t =>
           match getq s t with
           | Some qt =>
-            (* req.flushreq = r.flushreq; r.flushreq = req *)
-            let s1 := setq s r (with_pc (with_target (with_links q1 (q_flushreq qt) (q_prev q1) (q_next q1)) t) (WF2 t)) in
+            (* req.flushnext = r.flushreq; r.flushreq = req *)
+            let s1 := setq s r (with_pc (with_target (with_flushnext q1 (q_flushreq qt)) t) (WF2 t)) in
             match getq s1 t with
             | Some qt1 => Some (setq s1 t (with_links qt1 (Some r) (q_prev qt1) (q_next qt1)))
             | None => None end
@@ -306,40 +319,43 @@ Definition step (c : cfg) (s : st) (l : label) : option st :=
         match f_pc f with
         | R1 =>     (* req.Lock(); status := req.status; status |= reqResponded; status &^= reqWork *)
           let s1 := setq s (f_req f) (with_status q (q_flush q) false true (q_saved q)) in
-          if q_resp q then Some (setf s1 fi (mkFrame (f_req f) RDone (q_flush q) None [] false))
-          else Some (setf s1 fi (mkFrame (f_req f) R2 (q_flush q) None [] true))
-        | R2 =>     (* conn.Lock(): unlink *)
+          if q_resp q then Some (setf s1 fi (mkFrame (f_req f) RDone (q_flush q) None None false))
+          else Some (setf s1 fi (mkFrame (f_req f) R3 (q_flush q) None None true))
+        | R2 =>     (* conn.Lock(): unlink (after the reply has been queued) *)
           match q_prev q with
           | Some nx =>
             match getq s nx with
             | Some qn =>
-              (* nextreq.next = nil; the chained flushes are moved to nextreq (as written) *)
-              let moved :=
+              (* nextreq.next = nil; the flushes waiting for req are appended to nextreq's list *)
+              let s1 := setq s nx (with_links qn (q_flushreq qn) (q_prev qn) None) in
+              let s2 :=
                 match q_flushreq q with
-                | None => q_flushreq qn
-                | Some fr => match q_flushreq qn with None => Some fr | Some x => Some x end
+                | None => s1
+                | Some fr =>
+                  match q_flushreq qn with
+                  | None => setq s1 nx (with_links qn (Some fr) (q_prev qn) None)
+                  | Some h =>
+                    let p := chain_last (length (R s)) (R s) h in
+                    match getq s1 p with
+                    | Some qp => setq s1 p (with_flushnext qp (Some fr))
+                    | None => s1 end
+                  end
                 end in
-              let s1 := setq s nx (with_links qn moved (q_prev qn) None) in
-              (* "nextreq = req.flushreq" when both have flushes: the local variable is overwritten (as written) *)
-              let nxt := match q_flushreq q, q_flushreq qn with
-                         | Some fr, Some _ => fr
-                         | _, _ => nx end in
-              Some (setf s1 fi (mkFrame (f_req f) R3 (f_sflush f) (Some nxt) [] (f_won f)))
+              Some (setf s2 fi (mkFrame (f_req f) R5 (f_sflush f) (Some nx) None (f_won f)))
             | None => None end
           | None =>
             let s1 := mkSt (aremove (reqs s) (q_tag q)) (R s) (F s) (outq s) (wire s) (recvr s) (closed s) (posted s) in
-            Some (setf s1 fi (mkFrame (f_req f) R3 (f_sflush f) None
-                                      (chain (length (R s)) (R s) (q_flushreq q)) (f_won f)))
+            Some (setf s1 fi (mkFrame (f_req f) R5 (f_sflush f) None (q_flushreq q) (f_won f)))
           end
-        | R3 =>     (* PostProcess *)
+        | R3 =>     (* PostProcess (first step after winning at R1) *)
           let s1 := mkSt (reqs s) (R s) (F s) (outq s) (wire s) (recvr s) (closed s) (posted s ++ [f_req f]) in
-          Some (setf s1 fi (mkFrame (f_req f) R4 (f_sflush f) (f_next f) (f_todo f) (f_won f)))
+          Some (setf s1 fi (mkFrame (f_req f) R4 (f_sflush f) (f_next f) (f_cur f) (f_won f)))
         | R4 =>     (* if status&reqFlush == 0 { select { case conn.reqout <- req: case <-conn.done: } } *)
-          if f_sflush f then Some (setf s fi (mkFrame (f_req f) R5 (f_sflush f) (f_next f) (f_todo f) (f_won f)))
-          else if closed s then Some (setf s fi (mkFrame (f_req f) R5 (f_sflush f) (f_next f) (f_todo f) (f_won f)))
+          if f_sflush f then Some (setf s fi (mkFrame (f_req f) R2 (f_sflush f) (f_next f) (f_cur f) (f_won f)))
+          else if closed s then Some (setf s fi (mkFrame (f_req f) R2 (f_sflush f) (f_next f) (f_cur f) (f_won f)))
           else if room c s then
             let s1 := mkSt (reqs s) (R s) (F s) (outq s ++ [f_req f]) (wire s) (recvr s) (closed s) (posted s) in
-            Some (setf s1 fi (mkFrame (f_req f) R5 (f_sflush f) (f_next f) (f_todo f) (f_won f)))
+            Some (setf s1 fi (mkFrame (f_req f) R2 (f_sflush f) (f_next f) (f_cur f) (f_won f)))
           else None
         | R5 =>     (* if nextreq != nil { go nextreq.process() } *)
           let s1 := match f_next f with
@@ -347,12 +363,19 @@ Definition step (c : cfg) (s : st) (l : label) : option st :=
                                  | Some qn => setq s nx (with_pc qn WSpawned)
                                  | None => s end
                     | None => s end in
-          Some (setf s1 fi (mkFrame (f_req f) R6 (f_sflush f) (f_next f) (f_todo f) (f_won f)))
-        | R6 =>     (* for freq := flushreqs; freq != nil; freq = freq.flushreq { freq.Respond() } *)
-          match f_todo f with
-          | [] => Some (setf s fi (mkFrame (f_req f) RDone (f_sflush f) (f_next f) [] (f_won f)))
-          | x :: rest => Some (addf (setf s fi (mkFrame (f_req f) R6 (f_sflush f) (f_next f) rest (f_won f))) (new_frame x))
+          Some (setf s1 fi (mkFrame (f_req f) R6 (f_sflush f) (f_next f) (f_cur f) (f_won f)))
+        | R6 =>     (* for freq := flushreqs; freq != nil; ... { freq.Respond() } *)
+          match f_cur f with
+          | None => Some (setf s fi (mkFrame (f_req f) RDone (f_sflush f) (f_next f) None (f_won f)))
+          | Some x => Some (addf (setf s fi (mkFrame (f_req f) R7 (f_sflush f) (f_next f) (Some x) (f_won f))) (new_frame x))
           end
+        | R7 =>     (* ... freq = freq.flushnext : the link is read when the loop advances, without a lock *)
+          match f_cur f with
+          | Some x =>
+            match getq s x with
+            | Some qx => Some (setf s fi (mkFrame (f_req f) R6 (f_sflush f) (f_next f) (q_flushnext qx) (f_won f)))
+            | None => None end
+          | None => None end
         | RDone => None
         end
       | None => None end
